@@ -23,7 +23,7 @@ func TestVerif(t *testing.T) {
 			"(every other top-level key and every other entry equal as JSON values, numbers exactly), have mode 0600 when it was rewritten, and load into a fresh store that answers like the model. " +
 			"After every history the store that executed it and a fresh store loaded from the file are asked Get for both addresses, the bare host name h and an unrelated host: the fresh store must answer like the model, and the two stores must agree wherever at most one entry can be meant. " +
 			"crash: the last operation of every such history of length <= 3 (thorough <= 4) is interrupted before each of its mutating file-system operations in turn (mkdir, create-temp, fchmod, write, rename); the file at the config path must be the old or the new complete document (new: mode 0600). " +
-			"concurrent: 3 goroutines x one operation each, every multiset of {Put a, Put b, Delete a, Get a} except three Gets (repeated Puts carry different credentials) x 3 (thorough 6) document/address-pair combinations, all schedules with at most 2 (thorough 3) deviations from each of 3 default schedulers; " +
+			"concurrent (on a FileStore, and for two of the documents also on the store credentials.NewStore returns with the plain-text fallback allowed): 3 goroutines x one operation each, every multiset of {Put a, Put b, Delete a, Get a} except three Gets (repeated Puts carry different credentials) x 3 (thorough 6) document/address-pair combinations, all schedules with at most 2 (thorough 3) deviations from each of 3 default schedulers; " +
 			"final file = model after some permutation, every Get answer = what some permutation allows at that point. " +
 			"strace-conformance: 5 scripted histories run by an uninstrumented driver under strace - mutating system calls = shim log, and a real SIGKILL at entry of every one of them leaves the tree the shim's freeze leaves. " +
 			"non-trivial = distinct (document, addresses, history) with an effective mutation on a document that has something else to preserve, distinct crash point after the first mutating operation, distinct round-trip case with an empty/colon/non-ASCII/markup credential part, distinct non-default schedule",
